@@ -104,6 +104,9 @@ func EvAdd1Sync(
 func EvAddSync(
 	ctx context.Context, e *am.Event, mach am.Api, states S, args ...am.A,
 ) bool {
+	if ctx == nil {
+		ctx = mach.Context()
+	}
 	res := mach.EvAdd(e, states, am.OptArgs(args))
 	// fmt.Printf("wait on %d\n", res)
 	switch res {
@@ -155,6 +158,9 @@ func EvAddAsync(
 	ctx context.Context, e *am.Event, mach am.Api, waitState string,
 	addStates S, args ...am.A,
 ) bool {
+	if ctx == nil {
+		ctx = mach.Context()
+	}
 	ctxWhen, cancel := context.WithCancel(ctx)
 	defer cancel()
 
@@ -203,6 +209,9 @@ func EvRemove1Sync(
 func EvRemoveSync(
 	ctx context.Context, e *am.Event, mach am.Api, states S, args ...am.A,
 ) bool {
+	if ctx == nil {
+		ctx = mach.Context()
+	}
 	res := mach.EvRemove(e, states, am.OptArgs(args))
 	switch res {
 	case am.Executed:
@@ -574,6 +583,9 @@ func (r *MutRequest) get() (am.Result, error) {
 // Wait waits for a duration, or until the context is done. Returns true if the
 // duration has passed, or false if ctx is done.
 func Wait(ctx context.Context, length time.Duration) bool {
+	if ctx == nil {
+		ctx = context.Background()
+	}
 	t := time.After(length)
 
 	select {
@@ -629,6 +641,9 @@ func WaitForAll(
 	if len(chans) == 0 {
 		return nil
 	}
+	if ctx == nil {
+		ctx = context.Background()
+	}
 	if ctx.Err() != nil {
 		return ctx.Err()
 	}
@@ -667,6 +682,9 @@ func WaitForErrAll(
 	// exit early
 	if len(chans) == 0 {
 		return nil
+	}
+	if ctx == nil {
+		ctx = mach.Context()
 	}
 	if ctx.Err() != nil {
 		return ctx.Err()
@@ -713,6 +731,9 @@ func WaitForAny(
 	// TODO test
 	// TODO reflection-less selectes for 1/2/3 chans
 	// exit early
+	if ctx == nil {
+		ctx = context.Background()
+	}
 	if ctx.Err() != nil {
 		return ctx.Err()
 	}
@@ -762,6 +783,9 @@ func WaitForErrAny(
 	// TODO test
 	// TODO reflection-less selectes for 1/2/3 chans
 	// exit early
+	if ctx == nil {
+		ctx = mach.Context()
+	}
 	if ctx.Err() != nil {
 		return ctx.Err()
 	}
